@@ -12,6 +12,36 @@ CHECKS = {
             "against the documented task-timing semantics; the candidate grid of single-task problems is walked "
             "completely (every start in [-2,H+1], every duration) so that a missing or weakened timing assertion is "
             "driven to a returned schedule that exhibits it.", "7 C01"),
+    "C02": ("runtime monitoring: catalogue of resource micro-problems, every placement/selection/dynamic span pinned, refsem oracle",
+            "Capacity, assignment, selection and work-amount clauses are evaluated on every schedule the real solver returns "
+            "for ~10k pinned candidates (all pair placements, all selection subsets, inverted and escaping dynamic spans) "
+            "plus random mixtures; a candidate that breaks a clause must be refused, and is reported with its witness when "
+            "it is returned instead.", "7 C02"),
+    "C03": ("runtime monitoring: task-constraint catalogue x task-type mixes, whole placement grid pinned, refsem oracle",
+            "One clause per constraint kind and mode; each catalogue cell's placement grid is executed completely on the "
+            "real solver (~19k executions quick) and every returned schedule judged; refusals of clause-breaking "
+            "candidates are counted per clause.", "7 C03"),
+    "C04": ("runtime monitoring: resource-constraint catalogue (plain, cumulative, via selection), placement grid pinned, refsem oracle",
+            "Unavailability (one-off and periodic over at least two periods, offsets and activity windows), workload, "
+            "distance, non-delay, interruption and same/distinct-worker clauses judged on every returned schedule of "
+            "~11k executions (quick).", "7 C04"),
+    "C05": ("runtime monitoring: every strong-valid candidate of the catalogues pinned; refusal = violation; automatic mechanism minimisation",
+            "Completeness against the strong reading of the reference semantics: ~24k (quick) enumerated valid candidates "
+            "over the C01-C04/C06/C09 catalogues and random compositions are each pinned and must be admitted by the "
+            "real solver; refusals are minimised to the responsible elements.", "7 C05"),
+    "C06": ("runtime monitoring: differential executions (unscheduled vs deleted, scheduled vs mandatory) + inertness clauses on every solution",
+            "Differential verdicts of fresh solver instances (~33k executions quick) need no reference semantics: an "
+            "unscheduled optional task must leave exactly the schedules of the problem without it; inertness of the report "
+            "(assignments, buffers, indicators, objectives) and the scheduling rules are judged on every returned schedule.",
+            "7 C06"),
+    "C09": ("runtime monitoring: buffer catalogue, every access-instant placement incl. ties pinned, replay oracle on reported levels",
+            "Reported level sequences are compared with the replay of the accesses for every placement of the accessing "
+            "tasks on the horizon (exhaustive per cell), both buffer kinds, all bound combinations; extrema are steered "
+            "with both optimisers.", "7 C09"),
+    "C11": ("runtime monitoring: field-by-field consistency post-condition on every SchedulingSolution built, steered over the resource catalogue",
+            "Universal post-condition (task view <=> resource view, spans, cumulative folding, horizon, calendar "
+            "arithmetic, report = model) evaluated on ~3k steered solutions (quick) over calendar and horizon variants.",
+            "7 C11"),
 }
 
 NOT_YET = {}
